@@ -321,6 +321,19 @@ impl<T: Clone + Into<Vec<u8>>> FindNodeContext<T> {
     }
 }
 
+#[cfg(litep2p_verif)]
+impl<T: Clone + Into<Vec<u8>>> FindNodeContext<T> {
+    /// Verification hook: override the peer timeout (the unit tests set the field directly).
+    pub(crate) fn verif_set_peer_timeout(&mut self, timeout: std::time::Duration) {
+        self.peer_timeout = timeout;
+    }
+
+    /// Verification hook: read access to the parallelism accounting.
+    pub(crate) fn verif_counters(&self) -> (usize, &HashSet<PeerId>) {
+        (self.pending_responses, &self.timed_out)
+    }
+}
+
 #[cfg(test)]
 mod tests {
     use super::*;
